@@ -701,6 +701,45 @@ def no_hidden_state(ctx, rule, files):
     return judged
 
 
+_PURE_BUILTINS = {'enumerate': enumerate, 'dict': dict, 'zip': zip,
+                  'range': range, 'len': len, 'list': list, 'tuple': tuple,
+                  'reversed': reversed, 'sorted': sorted}
+
+
+def fold_literal_table(expr):
+    """Value of a module-level table written as a literal or a comprehension
+    over literals and pure builtins (enumerate, zip, range, ...) - constant
+    folding by the analyser; anything else (a name, an attribute, a call of
+    repository code) is refused (None).  Nothing of the repository runs."""
+    bound = set()
+    for node in ast.walk(expr):
+        if isinstance(node, ast.comprehension):
+            for leaf in ast.walk(node.target):
+                if isinstance(leaf, ast.Name):
+                    bound.add(leaf.id)
+    allowed = (ast.Constant, ast.List, ast.Tuple, ast.Dict, ast.Set,
+               ast.DictComp, ast.ListComp, ast.SetComp, ast.GeneratorExp,
+               ast.comprehension, ast.Name, ast.Subscript, ast.Call,
+               ast.Load, ast.Store, ast.Slice, ast.BinOp, ast.Add, ast.Sub,
+               ast.Mult, ast.UnaryOp, ast.USub, ast.Compare, ast.Eq,
+               ast.NotEq, ast.Lt, ast.Gt, ast.IfExp, ast.keyword)
+    for node in ast.walk(expr):
+        if not isinstance(node, allowed):
+            return None
+        if isinstance(node, ast.Name) and node.id not in bound and \
+                node.id not in _PURE_BUILTINS:
+            return None
+        if isinstance(node, ast.Call) and not (
+                isinstance(node.func, ast.Name) and
+                node.func.id in _PURE_BUILTINS):
+            return None
+    try:
+        code = compile(ast.Expression(body=expr), '<table>', 'eval')
+        return eval(code, {'__builtins__': {}}, dict(_PURE_BUILTINS))
+    except Exception:               # pylint: disable=broad-except
+        return None
+
+
 _DOM_CACHE = {}
 
 
